@@ -3,6 +3,7 @@ package gram
 import (
 	"encoding/json"
 	"fmt"
+	"os"
 	"time"
 
 	"verif/internal/core"
@@ -59,4 +60,49 @@ func Inputs(run *core.Run, tier string) []Input {
 		inputs = append(inputs, Input{Text: s, Desc: "workload"})
 	}
 	return inputs
+}
+
+// ExportForms writes a sample of Select.tla's statement forms (every named form once, every 97th clause
+// combination, every 41st ORDER BY list / tail / window form) to a temporary file and points VERIF_EXTRA_STMTS
+// at it, so that the statement pools of package stmts (in this process and in child processes) include model
+// statements. It returns the number of statements written.
+func ExportForms(run *core.Run) int {
+	sr := core.MustTLC(core.TLCOpts{Spec: "Select", Cfg: "Select.cfg", Timeout: 10 * time.Minute})
+	run.AddTLC(sr.Stat("statement forms (source of base statements for the pools)"))
+	seen := map[string]int{}
+	var out []string
+	for _, line := range sr.Cases {
+		var c struct {
+			Name string   `json:"name"`
+			Toks []string `json:"toks"`
+		}
+		_ = json.Unmarshal([]byte(line), &c)
+		seen[c.Name]++
+		n := seen[c.Name]
+		switch {
+		case c.Name == "select":
+			if n%97 != 1 {
+				continue
+			}
+		case len(c.Name) > 5 && (c.Name[:5] == "order" || c.Name == "tail" || c.Name == "window-spec"):
+			if n%41 != 1 {
+				continue
+			}
+		default:
+			if n > 1 {
+				continue
+			}
+		}
+		out = append(out, Layouts(c.Toks, 0))
+	}
+	f, err := os.CreateTemp("", "verif-forms-*.txt")
+	if err != nil {
+		core.Fatalf("%v", err)
+	}
+	for _, s := range out {
+		fmt.Fprintln(f, s)
+	}
+	f.Close()
+	os.Setenv("VERIF_EXTRA_STMTS", f.Name())
+	return len(out)
 }
